@@ -56,6 +56,19 @@ def gen(tier: str, seed: int) -> list[Case]:
                 reach=REACH,
             ),
         )
+    # every declaration form of C01's library and its whole-package scenarios (judged without a package model: writes
+    # inside the output directory, one text per path, directory = announced package)
+    from ..scenarios import PACKAGE_SCENARIOS
+    from . import c01
+
+    for i in range(2 if tier == "quick" else 24):
+        ks = c01.kitchen_sink(rng_for(seed, PID, "kitchen-sink", i), gated_features(), 110 + i)
+        cases.append(Case(cid=f"c10-kitchen-{i}", files=ks, opts=[["-nc"], ["--docstyle", "numpydoc"], [], ["-nc", "--docstyle", "rest"]][i % 4], out_spelling=spell[i % len(spell)], meta={}, reach=REACH))
+    for k, (feat, sfiles, optsets) in enumerate(PACKAGE_SCENARIOS):
+        if feat in gated_features() or feat == "file:stub-and-namespace":  # file names that are no module names
+            continue
+        files = {"src/" + fk: ({"hex": fv.hex()} if isinstance(fv, bytes) else fv) for fk, fv in sfiles.items()}
+        cases.append(Case(cid=f"c10-scenario-{feat}", files=files, opts=list(optsets[k % len(optsets)]), meta={}, reach=REACH))
     return cases
 
 
@@ -154,6 +167,8 @@ def make_judge(chk: Check):
                 kind = "reexported-module"
             elif base.startswith("_"):
                 viols.append(Viol("leading-underscore-in-file-name", "name", {"file": rel}))
+            elif pkg is None:
+                kind = "not-judged-without-package-model"  # which modules an __init__ re-exports as a whole is not known here
             else:
                 viols.append(Viol("file-name-differs-from-content", "name", {"file": rel, "python_module": m.py_module, "declarations": tops[:5]}))
             chk.case_ok(f"{kind}:{len(d.split('/'))}:{'nc' if '-nc' in case.opts else 'py'}:{'annot' if 'PythonModule' in m.annotations else 'plain'}")
